@@ -3,12 +3,28 @@
 use garnish_lang_compiler::parse::{Definition, ParseNode};
 use std::fmt;
 
-#[derive(Clone, PartialEq, Eq, Debug)]
+#[derive(Clone, Debug)]
 pub enum Sx {
     Leaf(String, String),
+    /// (definition, left, right); value nodes that carry side-effect children keep their token text in `ValNode`
     Node(String, Option<Box<Sx>>, Option<Box<Sx>>),
+    /// a value node (definition, text) with side-effect children
+    ValNode(String, String, Option<Box<Sx>>, Option<Box<Sx>>),
     Broken(String),
 }
+
+impl PartialEq for Sx {
+    fn eq(&self, other: &Sx) -> bool {
+        match (self, other) {
+            (Sx::Leaf(a, b), Sx::Leaf(c, d)) => a == c && b == d,
+            (Sx::Node(a, l1, r1), Sx::Node(b, l2, r2)) => a == b && l1 == l2 && r1 == r2,
+            (Sx::ValNode(a, t1, l1, r1), Sx::ValNode(b, t2, l2, r2)) => a == b && t1 == t2 && l1 == l2 && r1 == r2,
+            (Sx::Broken(a), Sx::Broken(b)) => a == b,
+            _ => false,
+        }
+    }
+}
+impl Eq for Sx {}
 
 impl fmt::Display for Sx {
     fn fmt(&self, f: &mut fmt::Formatter<'_>) -> fmt::Result {
@@ -21,6 +37,18 @@ impl fmt::Display for Sx {
                 }
             }
             Sx::Broken(w) => write!(f, "<BROKEN {}>", w),
+            Sx::ValNode(d, t, l, r) => {
+                write!(f, "({}:{:?}", d, t)?;
+                match l {
+                    Some(l) => write!(f, " {}", l)?,
+                    None => write!(f, " _")?,
+                }
+                match r {
+                    Some(r) => write!(f, " {}", r)?,
+                    None => write!(f, " _")?,
+                }
+                write!(f, ")")
+            }
             Sx::Node(d, l, r) => {
                 write!(f, "({}", d)?;
                 match l {
@@ -48,7 +76,7 @@ impl Sx {
         match self {
             Sx::Broken(_) => true,
             Sx::Leaf(..) => false,
-            Sx::Node(_, l, r) => l.as_ref().map(|x| x.is_broken()).unwrap_or(false) || r.as_ref().map(|x| x.is_broken()).unwrap_or(false),
+            Sx::Node(_, l, r) | Sx::ValNode(_, _, l, r) => l.as_ref().map(|x| x.is_broken()).unwrap_or(false) || r.as_ref().map(|x| x.is_broken()).unwrap_or(false),
         }
     }
     /// remove Group nodes (keeping their content); an empty group stays
@@ -56,6 +84,7 @@ impl Sx {
         match self {
             Sx::Node(d, None, Some(r)) if d == "Group" => r.strip_groups(),
             Sx::Node(d, l, r) => Sx::Node(d.clone(), l.as_ref().map(|x| Box::new(x.strip_groups())), r.as_ref().map(|x| Box::new(x.strip_groups()))),
+            Sx::ValNode(d, t, l, r) => Sx::ValNode(d.clone(), t.clone(), l.as_ref().map(|x| Box::new(x.strip_groups())), r.as_ref().map(|x| Box::new(x.strip_groups()))),
             other => other.clone(),
         }
     }
@@ -63,12 +92,12 @@ impl Sx {
         match self {
             Sx::Leaf(d, _) => d == def,
             Sx::Broken(_) => false,
-            Sx::Node(d, l, r) => d == def || l.as_ref().map(|x| x.contains_def(def)).unwrap_or(false) || r.as_ref().map(|x| x.contains_def(def)).unwrap_or(false),
+            Sx::Node(d, l, r) | Sx::ValNode(d, _, l, r) => d == def || l.as_ref().map(|x| x.contains_def(def)).unwrap_or(false) || r.as_ref().map(|x| x.contains_def(def)).unwrap_or(false),
         }
     }
     pub fn size(&self) -> usize {
         match self {
-            Sx::Node(_, l, r) => 1 + l.as_ref().map(|x| x.size()).unwrap_or(0) + r.as_ref().map(|x| x.size()).unwrap_or(0),
+            Sx::Node(_, l, r) | Sx::ValNode(_, _, l, r) => 1 + l.as_ref().map(|x| x.size()).unwrap_or(0) + r.as_ref().map(|x| x.size()).unwrap_or(0),
             _ => 1,
         }
     }
@@ -110,6 +139,8 @@ fn conv(i: usize, nodes: &[ParseNode], on_path: &mut Vec<bool>, budget: &mut usi
     let d = n.get_definition();
     if l.is_none() && r.is_none() && d.is_value_like() {
         Sx::Leaf(def_name(d), n.get_lex_token().get_text().clone())
+    } else if d.is_value_like() {
+        Sx::ValNode(def_name(d), n.get_lex_token().get_text().clone(), l.map(Box::new), r.map(Box::new))
     } else {
         Sx::Node(def_name(d), l.map(Box::new), r.map(Box::new))
     }
